@@ -6,7 +6,10 @@ a kill injected at mutation k, before or right after it).  Compared with the Lea
   * the mutation trace (op, path-class) of the uninterrupted run, and that every file the model declares complete at
     some point is complete on disk no later in the real run;
   * for crash points: the set of files present at the kill, the verdict of kill -> --resume (EQUAL / DIFF / FAIL), and
-    the mutation trace of the resumed run.
+    the mutation trace of the resumed run;
+  * process pool (--threads 2..4, Model/ResumePool.lean): the recorded global trace must be an interleaving of the model's
+    per-task event lists with the stage barriers respected (the schedule is read off the trace and given to the model,
+    then the sequences must be equal); sampled kill points of pool runs are compared in the same way.
 Oracle: the same enumeration judged against the property itself on the real code: every kill point after `.params`
 was saved must give EQUAL (resumed run exits 0 and every final file equals the uninterrupted run's).
 """
@@ -20,24 +23,35 @@ import vlib
 from gen import c07_runs as R
 
 ID = "C07"
-PROPS = ["IsoVerif/Props/C07.lean"]
-TARGETS = ["IsoVerif.Props.C07"]
+PROPS = ["IsoVerif/Props/C07.lean", "IsoVerif/Props/C07Pool.lean", "IsoVerif/Props/C07Multi.lean"]
+TARGETS = ["IsoVerif.Props.C07", "IsoVerif.Props.C07Pool", "IsoVerif.Props.C07Multi"]
 GEN_DEPS = []
 LEVEL = "proof"
 RULE = ("a case = one (configuration, kill point k, phase before/after) of the real pipeline; non-trivial when the kill "
         "really interrupted the run, the model's crash file system has the same files as the real one, the verdicts agree "
-        "and the resumed run's mutation trace equals the model's; distinct by (configuration, k, phase); plus one case per "
-        "uninterrupted-run trace comparison")
+        "and the resumed run's mutation trace equals the model's; distinct by (configuration, k, phase[, threads]); plus one "
+        "case per uninterrupted-run trace comparison (--threads 1, each pool run under its observed schedule, the "
+        "--sqanti_output run, the two-experiment invocation)")
 TRUSTED = ["harness/c07_wrap.py observes open()/gzip.open()/os.remove() and flush/close of files opened through builtins.open; "
            "writes through other channels (sqlite, pysam, pyfaidx) are not observed and lie outside the modelled stages",
            "SIGKILL of the process group stands for an interruption; data handed to the OS (flush/close) survives it"]
 ASSUMPTIONS = ["content tokens: a file is `good` iff it is the complete output of a correct computation; recomputing a stage "
                "from good inputs yields the same bytes (determinism is the subject of C06/C10)",
                "final files are compared modulo the `# Command line` / version header lines (a resumed run records its own command line)",
-               "the first run starts in a fresh output directory; one sample, BAM input, default options except genedb / read_group / keep_tmp",
+               "BAM input (or --read_assignments), default options except genedb / read_group / keep_tmp / sqanti_output / threads; "
+               "several experiments (--bam_list): every experiment is one run of the model in its own folder (`.params` shared, "
+               "written once; a resumed invocation goes through every experiment again), the model configuration of a later "
+               "experiment carries `carried` = an earlier experiment has unaligned reads; the tables combined over the experiments "
+               "are outside the model and compared as final outputs",
                "a truncated pickle or terminated binary stream makes its reader raise (observed: AssertionError, EOFError)",
-               "crash points are enumerated with --threads 1 (deterministic mutation order); pool schedules are covered by a trace "
-               "comparison per chromosome and by sampled kill points judged by the oracle only"]
+               "process pool (--threads 2..4): the model's pool run (Model/ResumePool.lean) takes the schedule of each parallel stage "
+               "as an argument; the harness reads the schedule off the observed trace (which task performed the next mutation) and "
+               "compares the whole global mutation sequence, the files at the kill, the verdict and the resumed run's sequence; in a "
+               "killed pool run the last traced mutation of a task other than the killing one may not have been performed - it is "
+               "resolved from the files found (a created file is missing / a removed file is still there), otherwise taken as performed "
+               "(it changes no file's presence)",
+               "kill points of pool runs are sampled (the mutation numbering is schedule dependent); all kill points of --threads 1 "
+               "runs are enumerated in the thorough tier"]
 
 VARIANT_FIXED = {"flushBeforeLock": True, "dropProcessed": True, "locksFirst": True, "countUnaligned": True}
 # development aid only (docs/C07.md, "the pinned variant against the pinned tree"): VERIF_C07_VARIANT=pinned compares a
@@ -48,7 +62,8 @@ if os.environ.get("VERIF_C07_VARIANT") == "pinned":
 SUFFIX = {"corrected_reads.bed": "bed", "read_assignments.tsv": "assign", "transcript_models.gtf": "gtf",
           "transcript_model_reads.tsv": "r2t", "extended_annotation.gtf": "ext", "gene_counts.tsv": "gene",
           "transcript_counts.tsv": "tr", "transcript_model_counts.tsv": "model", "gene_grouped_counts.tsv": "geneG",
-          "transcript_grouped_counts.tsv": "trG", "transcript_model_grouped_counts.tsv": "modelG"}
+          "transcript_grouped_counts.tsv": "trG", "transcript_model_grouped_counts.tsv": "modelG",
+          "novel_vs_known.SQANTI-like.tsv": "sq"}
 LINEAR = {"gene_grouped_counts_linear.tsv": "geneG", "transcript_grouped_counts_linear.tsv": "trG",
           "transcript_model_grouped_counts_linear.tsv": "modelG"}
 TPM = {"gene_tpm.tsv": "gene", "transcript_tpm.tsv": "tr", "transcript_model_tpm.tsv": "model",
@@ -207,7 +222,7 @@ class Session:
         self.cfg = cfg
         self.dir = os.path.join(base, "cfg%d" % idx)
         self.data = data or R.make_dataset(cfg, os.path.join(self.dir, "data"))
-        self.prefix = R.PREFIX
+        self.prefix = cfg.get("prefix", R.PREFIX)
         self.table = path_table(self.data["chrs"], self.prefix)
         self.fs0 = []
         self.setup()
@@ -228,7 +243,7 @@ class Session:
     def prepare(self, wd):
         pass
 
-    def args(self, wd):
+    def args(self, wd, threads=1):
         return None
 
     def model_cfg(self):
@@ -236,7 +251,8 @@ class Session:
         return {"chrs": list(range(len(ix))), "mchrs": [ix[c] for c in self.data["mchrs"]],
                 "bchrs": [ix[c] for c in self.data["bchrs"]], "genedb": bool(self.cfg.get("genedb", True)),
                 "rg": self.cfg.get("rg", "none"), "keepTmp": bool(self.cfg.get("keep_tmp")),
-                "unmapped": bool(self.cfg.get("unmapped")), "fromSaves": self.from_saves}
+                "unmapped": bool(self.cfg.get("unmapped")), "fromSaves": self.from_saves,
+                "sqanti": bool(self.cfg.get("sqanti"))}
 
     def leftover_fs(self, outdir, good=()):
         """model file system of the files found in a folder: complete files of another run are `stale`"""
@@ -258,6 +274,12 @@ class Session:
         first = self.first_point()
         last = self.muts[-1][0]
         allp = [(k, ph) for k in range(first, last + 1) for ph in "ba"]
+        if self.kind == "sqanti":
+            # every per-chromosome / stage lock in both phases (right after a lock appeared is where unflushed data shows)
+            locks = sorted({(n, x) for n, o, p in self.muts if n >= first and o == "create" and
+                            p[0] in ("collected", "processed", "lock") for x in "ab"})
+            rest = [p for p in allp if p not in locks]
+            return sorted(set(locks + ctx.rng.sample(rest, min(len(rest), 6 if ctx.tier == "quick" else 40))))
         if ctx.tier != "quick":
             n = getattr(self, "sample_thorough", None)
             if n is None:
@@ -281,14 +303,14 @@ class Session:
         if len(special) > 28:
             special = ctx.rng.sample(special, 28)
         rest = [p for p in allp if p not in special]
-        return sorted(set(special + ctx.rng.sample(rest, min(len(rest), 36))))
+        return sorted(set(special + ctx.rng.sample(rest, min(len(rest), 22))))
 
     def run_point(self, k, ph, threads=1):
         key = (k, ph, threads)
         if key not in self.results:
             wd = os.path.join(self.dir, "t_%d%s_%d" % (k, ph, threads))
             r = R.crash_resume(wd, self.cfg, self.data, k, ph, self.clean_outputs, threads=threads,
-                               prepare=self.prepare, args=self.args, prefix=self.prefix)
+                               prepare=self.prepare, args=lambda w: self.args(w, threads), prefix=self.prefix)
             shutil.rmtree(wd, ignore_errors=True)
             self.results[key] = r
         return self.results[key]
@@ -326,8 +348,8 @@ class DirtySession(Session):
     def prepare(self, wd):
         shutil.copytree(os.path.join(self.tmpl, "out"), os.path.join(wd, "out"))
 
-    def args(self, wd):
-        return R.cli_args(self.cfg, self.data, force=True)
+    def args(self, wd, threads=1):
+        return R.cli_args(self.cfg, self.data, threads=threads, force=True)
 
 
 class SavesSession(Session):
@@ -361,8 +383,71 @@ class SavesSession(Session):
         os.makedirs(os.path.join(wd, "out"), exist_ok=True)
         shutil.copytree(self.saves, os.path.join(wd, "out", "saves"))
 
-    def args(self, wd):
-        return R.cli_args(self.cfg, self.data, saves=os.path.join(wd, "out", "saves", R.PREFIX + ".save"))
+    def args(self, wd, threads=1):
+        return R.cli_args(self.cfg, self.data, threads=threads, saves=os.path.join(wd, "out", "saves", R.PREFIX + ".save"))
+
+
+class SqantiSession(Session):
+    """`--sqanti_output` on the toy data (the synthetic transcripts give no rows for the SQANTI-like table); an output
+    prefix that does not occur in `SQANTI` (merge_files replaces the last occurrence of the prefix in a file name)"""
+    kind = "sqanti"
+
+
+def tag(p, j):
+    return p if p == ["params"] else p + ["@%d" % j]
+
+
+def untag(p):
+    if p and isinstance(p[-1], str) and p[-1].startswith("@"):
+        return int(p[-1][1:]), p[:-1]
+    return None, p
+
+
+class MultiSession(Session):
+    """two experiments in one invocation (--bam_list), both alignment files with unaligned reads.  Every experiment is a
+    run of the model in its own folder (`.params` is shared and written once); the model configuration of the second
+    one says `carried`: the process-wide alignment counter is not zero when it starts.  Paths are tagged with the
+    experiment's index."""
+    kind = "multi"
+
+    def __init__(self, base, idx, cfg, data=None):
+        self.prefixes = list(R.MULTI_PREFIXES)
+        Session.__init__(self, base, idx, cfg, data)
+
+    def setup(self):
+        self.prefix = self.prefixes
+        self.table = {}
+        for j, px in enumerate(self.prefixes):
+            for rel, mp in path_table(self.data["chrs"], px).items():
+                self.table[rel] = tag(mp, j)
+        # the tables combined over the experiments, written by isoquant.py after the last experiment of every (also a
+        # resumed) invocation from the experiments' final count tables: not part of the model, compared as final outputs
+        for nm in ("gene_counts", "gene_tpm", "transcript_counts", "transcript_tpm"):
+            self.table["combined_%s.tsv" % nm] = ["combined", nm]
+
+    def split(self, muts):
+        """tagged mutations [(n, op, path)] -> per experiment [(n, op, path)]; `.params` goes to experiment 0"""
+        res = [[] for _ in self.prefixes]
+        for n, o, p in muts:
+            j, q = untag(p)
+            res[j or 0].append((n, o, q))
+        return res
+
+    def points(self, ctx):
+        first, last = self.first_point(), self.muts[-1][0]
+        second = [n for n, o, p in self.muts if untag(p)[0] == 1]
+        lock2 = next((n for n, o, p in self.muts if untag(p) == (1, ["lock"]) and o == "create"), None)
+        firstp = [n for n, o, p in self.muts if n >= first and untag(p)[0] in (0, None)]
+        after = [n for n in second if lock2 is not None and n > lock2]
+        before = [n for n in second if lock2 is None or n < lock2]
+        quick = ctx.tier == "quick"
+        ks = ctx.rng.sample(firstp, min(len(firstp), 3 if quick else 20)) + \
+            ctx.rng.sample(before, min(len(before), 3 if quick else 20)) + \
+            ctx.rng.sample(after, min(len(after), 4 if quick else 30))
+        pts = {(k, ctx.rng.choice("ab")) for k in ks}
+        if lock2 is not None:
+            pts |= {(lock2, "a"), (lock2, "b")}
+        return sorted(pts)
 
 
 def pick_earlier_kill(sess, rng, what):
@@ -442,6 +527,15 @@ def sessions(ctx):
                                                                                cfg.get("keep_tmp"), cfg.get("unmapped")))
         if os.environ.get("VERIF_C07_VARIANT") != "pinned":     # (the development aid compares the plain scenarios only)
             st["sessions"] += history_sessions(ctx, list(st["sessions"]))
+            # --sqanti_output (toy data) and a two-experiment invocation with unaligned reads in both alignment files
+            st["sessions"].append(SqantiSession(st["base"], 200, {"toy": True, "n": 1, "genedb": True, "rg": "none",
+                                                                  "keep_tmp": False, "unmapped": False, "seed": 0,
+                                                                  "sqanti": True, "prefix": "Q7x"}))
+            ctx.count("config:sqanti_output,toy")
+            mcfg = {"n": ctx.rng.choice([1, 2]), "genedb": True, "rg": ctx.rng.choice(["none", "inline"]),
+                    "keep_tmp": ctx.rng.random() < 0.3, "unmapped": True, "seed": ctx.rng.randrange(10 ** 6), "multi": True}
+            st["sessions"].append(MultiSession(st["base"], 201, mcfg))
+            ctx.count("config:two_experiments,n=%d,rg=%s,keep_tmp=%s" % (mcfg["n"], mcfg["rg"], mcfg["keep_tmp"]))
     return st["sessions"]
 
 
@@ -463,6 +557,9 @@ def correspondence(ctx):
         ctx.evaluations += 1
         if sess.clean_rc != 0:
             ctx.disagree("clean_run", {"config": sess.cfg, "history": sess.history}, "ok", {"rc": sess.clean_rc, "log": sess.clean_log})
+            continue
+        if sess.kind == "multi":
+            multi_check(ctx, sess, tag)
             continue
         mcfg = sess.model_cfg()
         ord1 = sess.cleanup_order(sess.muts)
@@ -545,49 +642,443 @@ def correspondence(ctx):
                 if len(ctx.samples) < 8 and ctx.rng.random() < 0.1:
                     ctx.sample({"op": "crash_point", "input": inp, "killed_at": [o for n, o, p in sess.muts if n == k] +
                                 [p for n, o, p in sess.muts if n == k], "verdict": r["verdict"], "resumed_mutations": len(rr)})
-    # --- pool schedule: per-chromosome / global projections of the trace equal the model's
-    pool_trace_check(ctx)
+    # --- process pool: the global trace is an interleaving of the model's per-task lists; kill points of pool runs
+    pool_checks(ctx)
 
 
-def projections(seq):
-    """mutation list [[op, path]] -> {chromosome index or 'global': subsequence}"""
-    res = {}
-    for o, p in seq:
-        key = "global"
-        if p[0] in ("rgSplit", "save", "groups", "bamstat", "collected", "multimap", "readStat", "trStat", "processed"):
-            key = p[1]
-        elif p[0] in ("part", "partLin", "partStats"):
-            key = p[2]
-        res.setdefault(key, []).append([o, p])
+# ------------------------------------------------------------------------------------------------
+# several experiments in one invocation
+
+def multi_check(ctx, sess, tagname):
+    """two experiments against the model's invocation (Model/ResumeMulti.lean `runMulti`: lock removal for every
+    experiment, `.params` once, then every experiment in its own folder; `carried` is set by the model from the
+    configurations before): the global mutation sequence of the uninterrupted invocation; kill points: the files at the
+    kill in every folder, the verdict, the resumed invocation's global sequence"""
+    inp0 = {"config": sess.cfg, "history": sess.history}
+    nexp = len(sess.prefixes)
+
+    def body(muts, what, probs):
+        """the mutations without the trailing block that writes the combined tables"""
+        core = [m for m in muts if m[2][0] != "combined"]
+        if [m for m in muts[:len(core)] if m[2][0] == "combined"]:
+            probs.append("%s: a combined table is written before the last experiment has finished" % what)
+        return core
+
+    def tagged(mevs):
+        return [[e[0], tag(e[1], x)] + e[2:] for x, e in mevs]
+    probs = []
+    sess_muts = body(sess.muts, "uninterrupted run", probs)
+    sess_commits = [(min(g, len(sess_muts)), p) for g, p in sess.commits if p[0] != "combined"]
+    cfgs = [sess.model_cfg() for _ in range(nexp)]
+    ords = [sess.cleanup_order(r) for r in sess.split(sess_muts)]
+    out = ctx.driver.run([vlib.req("C07.multiRun", variant=VARIANT_FIXED, cfgs=cfgs, ords=ords)])[0]
+    if isinstance(out, dict) and "driver_error" in out:
+        ctx.disagree("multi_clean_trace", inp0, out, None)
+        return
+    m_muts, m_commits = model_muts(tagged(out["evs"]))
+    real_seq = [[o, p] for _, o, p in sess_muts]
+    model_seq = [[o, p] for _, o, p in m_muts]
+    ctx.traces_validated += 1
+    if sess.unknown:
+        probs.append("files without a path class: %s" % sorted(set(sess.unknown))[:5])
+    if not out["ok"]:
+        probs.append("the model's uninterrupted invocation raises")
+    if real_seq != model_seq:
+        d = next((i for i, (a, b) in enumerate(zip(real_seq, model_seq)) if a != b), min(len(real_seq), len(model_seq)))
+        probs.append("mutation traces differ at position %d: real %s, model %s (lengths %d / %d)" %
+                     (d, real_seq[d:d + 2], model_seq[d:d + 2], len(real_seq), len(model_seq)))
+    else:
+        probs += completion_check(sess_muts, sess_commits, m_muts, m_commits)[:5]
+    ctx.count("clean_trace_mutations", len(real_seq))
+    if probs:
+        ctx.disagree("multi_clean_trace", inp0, probs, None)
+        return
+    ctx.mark_nontrivial([tagname, "clean_trace"])
+    ctx.count("clean_trace:multi")
+    # --- kill points
+    pts = sess.points(ctx)
+    res = run_points(ctx, sess, pts)
+    off = sess.muts[0][0] - 1
+    lines, keep = [], []
+    for (k, ph), r in zip(pts, res):
+        j = k - off
+        if r["verdict"] == "NOCRASH" or j < 1 or j > len(m_muts):
+            ctx.count("point_not_reached")
+            continue
+        idx = model_index(m_muts, j, ph)
+        pr = []
+        cm = sess.split(body(canon_trace(r["trace"], sess.table)[0], "killed run", pr))
+        rm_all = body(canon_trace(r.get("resume_trace", []), sess.table)[0], "resumed run", pr)
+        rm = sess.split(rm_all)
+        ordk = []
+        for x in range(nexp):
+            ordc = sess.cleanup_order(cm[x])
+            ordk.append(ordc + [p for p in ords[x] if p not in ordc] if ordc else ords[x])
+        lines.append(vlib.req("C07.multiVerdict", variant=VARIANT_FIXED, cfgs=cfgs, ords=ordk,
+                              ords2=[sess.cleanup_order(rm[x]) for x in range(nexp)], k=idx))
+        keep.append(((k, ph), r, rm_all, idx, pr))
+    mouts = ctx.driver.run(lines)
+    for mo, ((k, ph), r, rm_all, idx, pr) in zip(mouts, keep):
+        ctx.evaluations += 1
+        ctx.traces_validated += 1
+        inp = {"config": sess.cfg, "history": sess.history, "k": k, "phase": ph, "model_index": idx}
+        if isinstance(mo, dict) and "driver_error" in mo:
+            ctx.disagree("verdict", inp, mo, None)
+            continue
+        ctx.count("verdict:" + r["verdict"])
+        ctx.count("phase:" + ph)
+        ctx.count("kill_points:multi")
+        bad = list(pr)
+        real_files = {json.dumps(sess.table[f]) for f in r["snapshot"] if f in sess.table and sess.table[f][0] != "combined"}
+        model_files = {json.dumps(tag(p, x)) for x, p, _ in mo["crash"]}
+        if real_files != model_files:
+            bad.append("files at the kill differ: only real %s, only model %s" %
+                       (sorted(real_files - model_files)[:4], sorted(model_files - real_files)[:4]))
+        if mo["verdict"] != r["verdict"]:
+            bad.append("verdict: model %s, real %s (%s)" % (mo["verdict"], r["verdict"], r["detail"][:300]))
+        mr = [[o, p] for _, o, p in model_muts(tagged(mo["resumed"]["evs"]))[0]]
+        rr = [[o, p] for _, o, p in rm_all]
+        if mr != rr and r["verdict"] != "FAIL":
+            d = next((x for x, (a, b) in enumerate(zip(rr, mr)) if a != b), min(len(rr), len(mr)))
+            bad.append("resumed traces differ at %d: real %s, model %s" % (d, rr[d:d + 2], mr[d:d + 2]))
+        if bad:
+            ctx.disagree("crash_point", inp, bad, r["verdict"])
+        else:
+            ctx.mark_nontrivial([tagname, k, ph])
+            if ctx.rng.random() < 0.2:
+                ctx.sample({"op": "crash_point_two_experiments", "input": inp, "verdict": r["verdict"],
+                            "resumed_mutations": len(rr)}, cap=16)
+
+
+# ------------------------------------------------------------------------------------------------
+# process pool: the observed global trace is an interleaving of the model's per-task lists (stage barriers respected)
+
+def chr_of(p):
+    """chromosome index of a per-chromosome path, None for a global one"""
+    if p[0] in ("part", "partLin", "partStats"):
+        return p[2]
+    if p[0] in ("rgSplit", "save", "groups", "bamstat", "collected", "multimap", "readStat", "trStat", "processed"):
+        return p[1]
+    return None
+
+
+def next_mut(evs, j):
+    return next((x for x in range(j, len(evs)) if evs[x][0] != "commit"), None)
+
+
+def derive_schedules(phases, real, killed=False, pending=None):
+    """phases: the phases of the model's pool run on the same file system (driver op C07.poolRun; the per-task lists and
+    the main-process phases do not depend on the schedule); real: the *performed* mutations [(n, op, path)] of the real
+    run in the order of their global numbers; killed: the real run was interrupted; pending: [op, path] of the mutation
+    the killing process was about to perform (kill phase 'b').
+    -> (s1, s2, n_events, problems): the event-level schedules of the two parallel stages that reproduce the observed
+    order (a commit is placed right before the next mutation of its own task: the latest point the real run can
+    have reached it), the number of model events the observed run has performed, structural problems (a mutation of a
+    task outside its stage, of an unknown task, ...)"""
+    i, nev, scheds, probs = 0, 0, [], []
+    stopped, pend = False, pending
+    for ph in phases:
+        evs = ph["evs"]
+        if ph["kind"] == "seq":
+            j = 0
+            while not stopped and j < len(evs):
+                m = next_mut(evs, j)
+                if m is None:                                  # trailing commits of the phase
+                    if not killed or i < len(real) or pend is not None:
+                        nev += len(evs) - j
+                    break
+                if i >= len(real):
+                    stopped = True
+                    if pend is not None and [evs[m][0], evs[m][1]] == pend:
+                        nev += m - j                           # the commits before the mutation that was about to happen
+                        pend = None
+                    break
+                if [real[i][1], real[i][2]] != [evs[m][0], evs[m][1]]:
+                    probs.append("main-process mutation %d: real %s, model %s" % (i, [real[i][1], real[i][2]], evs[m][:2]))
+                nev += m - j + 1
+                i += 1
+                j = m + 1
+            continue
+        tasks = {t[0]: t[1] for t in ph["tasks"]}
+        ptr = {c: 0 for c in tasks}
+        total = sum(1 for ev in tasks.values() for e in ev if e[0] != "commit")
+        sched, cnt = [], 0
+        while not stopped and cnt < total and i < len(real):
+            n, o, p = real[i]
+            c = chr_of(p)
+            i += 1
+            cnt += 1
+            if c not in tasks:
+                probs.append("mutation %s %s inside a parallel stage belongs to no task" % (o, p))
+                continue
+            m = next_mut(tasks[c], ptr[c])
+            if m is None:
+                probs.append("task %s has no mutation left for %s %s" % (c, o, p))
+                continue
+            if [o, p] != tasks[c][m][:2]:
+                probs.append("task %s: real %s, model %s" % (c, [o, p], tasks[c][m][:2]))
+            sched += [c] * (m - ptr[c] + 1)
+            nev += m - ptr[c] + 1
+            ptr[c] = m + 1
+        if not stopped:
+            if cnt < total:                                    # the trace ends inside the stage
+                stopped = True
+                if pend is not None and chr_of(pend[1]) in tasks:
+                    c = chr_of(pend[1])
+                    m = next_mut(tasks[c], ptr[c])
+                    if m is not None and tasks[c][m][:2] == pend:
+                        sched += [c] * (m - ptr[c])
+                        nev += m - ptr[c]
+                        pend = None
+            else:                                              # barrier: what is left (trailing commits) is done by now
+                nev += sum(len(tasks[c]) - ptr[c] for c in tasks)
+        scheds.append(sched)
+    if i < len(real):
+        probs.append("%d observed mutations after the end of the model's run (first: %s)" % (len(real) - i, real[i][1:]))
+    if pend is not None and killed:
+        probs.append("the mutation the killed process was about to perform (%s) is not the model's next one" % (pend,))
+    while len(scheds) < 2:
+        scheds.append([])
+    return scheds[0], scheds[1], nev, probs
+
+
+def performed_mutations(muts, snap_keys, fs0_keys, k, ph):
+    """the mutations of a killed run that were really performed.  A trace line is written *before* its mutation: the
+    line of the killing process (number k) is decided by the kill phase; the last traced mutation of every other
+    path may have been cut short by the kill - decided by the files found where that is visible (a created file that
+    did not exist before / a removed file), else taken as performed."""
+    last = {}
+    for i, (n, o, p) in enumerate(muts):
+        last[json.dumps(p)] = i
+    exists = set(fs0_keys)
+    res = []
+    for i, (n, o, p) in enumerate(muts):
+        key = json.dumps(p)
+        drop = False
+        if n == k:
+            drop = ph == "b"
+        elif last[key] == i:
+            if o == "create" and key not in exists and key not in snap_keys:
+                drop = True
+            if o == "remove" and key in snap_keys:
+                drop = True
+        if not drop:
+            res.append((n, o, p))
+            if o == "remove":
+                exists.discard(key)
+            else:
+                exists.add(key)
     return res
 
 
-def pool_trace_check(ctx):
-    ss = [s for s in sessions(ctx) if s.kind == "plain" and s.clean_rc == 0 and len(s.data["chrs"]) >= 2]
-    if not ss:
-        return
-    sess = ss[0]
-    wd = os.path.join(sess.dir, "pool")
-    rc, log, tr = R.run_wrapped(wd, sess.cfg, sess.data, threads=3)
-    outs3 = R.final_outputs(os.path.join(wd, "out")) if rc == 0 else None
+def pool_sessions(ctx):
+    ss = [s for s in sessions(ctx) if s.clean_rc == 0 and len(s.data["chrs"]) >= 2]
+    plain = [s for s in ss if s.kind == "plain"]
+    hist = [s for s in ss if s.kind in ("dirty", "saves")]
+    if ctx.tier == "quick":
+        # one plain configuration and one history scenario (dirty folder / --read_assignments by the seed)
+        return plain[:1], ([hist[ctx.seed % len(hist)]] if hist else [])
+    return plain, hist
+
+
+def pool_points(ctx, sess):
+    """sampled kill points of pool runs: [(k, phase, threads)]; half of them inside the two parallel stages"""
+    st = _state(ctx)
+    key = ("pool_points", id(sess))
+    if key in st:
+        return st[key]
+    first, last = sess.first_point(), sess.muts[-1][0]
+    inside = [n for n, o, p in sess.muts if n >= first and o != "remove" and
+              p[0] in ("save", "groups", "bamstat", "collected", "part", "partLin", "partStats", "readStat", "trStat", "processed")]
+    allk = list(range(first, last + 1))
+    if ctx.tier == "quick":
+        n_in, n_any = (4, 2) if sess.kind == "plain" else (2, 1)
+    else:
+        n_in, n_any = (10, 5) if sess.kind == "plain" else (3, 2)
+    ks = ctx.rng.sample(inside, min(len(inside), n_in)) + ctx.rng.sample(allk, min(len(allk), n_any))
+    pts = {(k, ctx.rng.choice("ab"), ctx.rng.choice([2, 3, 4])) for k in ks}
+    # right after every per-chromosome lock of the two parallel stages appeared: the states in which a resumed pool run
+    # has a task to skip while the others recompute (in the thorough tier also right before, and for the history scenarios)
+    locks = [n for n, o, p in sess.muts if n >= first and o == "create" and p[0] in ("collected", "processed")]
+    if ctx.tier == "quick":
+        if sess.kind == "plain":
+            pts |= {(n, "a", ctx.rng.choice([2, 3, 4])) for n in locks}
+    else:
+        pts |= {(n, x, ctx.rng.choice([2, 3, 4])) for n in locks for x in ("ab" if sess.kind == "plain" else "a")}
+    pts = sorted(pts)
+    st[key] = pts
+    return pts
+
+
+def run_pool_points(ctx, sess, pts):
+    st = _state(ctx)
+    with ThreadPoolExecutor(max(2, st["workers"] // 2)) as ex:
+        return list(ex.map(lambda p: sess.run_point(p[0], p[1], threads=p[2]), pts))
+
+
+def pool_clean_check(ctx, sess, threads):
+    """uninterrupted run with a process pool: same outputs as --threads 1, and the recorded global trace is an interleaving
+    of the model's per-task lists with the stage barriers respected"""
+    wd = os.path.join(sess.dir, "pool%d" % threads)
+    shutil.rmtree(wd, ignore_errors=True)
+    os.makedirs(wd)
+    sess.prepare(wd)
+    rc, log, tr = R.run_wrapped(wd, sess.cfg, sess.data, threads=threads, args=sess.args(wd, threads))
+    outs = R.final_outputs(os.path.join(wd, "out"), sess.prefix) if rc == 0 else None
     shutil.rmtree(wd, ignore_errors=True)
     ctx.evaluations += 1
-    if rc != 0 or outs3 != sess.clean_outputs:
-        ctx.disagree("pool_run", sess.cfg, "same outputs as --threads 1", {"rc": rc})
+    inp = {"config": sess.cfg, "history": sess.history, "threads": threads}
+    if rc != 0 or outs != sess.clean_outputs:
+        ctx.disagree("pool_run", inp, "same outputs as --threads 1", {"rc": rc, "log": log[-400:]})
         return
-    muts, _, unknown = canon_trace(tr, sess.table)
-    # worker processes number their mutations concurrently: order the lines by their global number
-    muts.sort(key=lambda x: x[0])
-    a = projections([[o, p] for _, o, p in muts])
-    b = projections([[o, p] for _, o, p in sess.muts])
-    # multimapper files and removals are global steps executed by the parent; only the two per-chromosome worker
-    # stages interleave.  Compare per chromosome and the rest.
+    muts, commits, unknown = canon_trace(tr, sess.table)
+    mcfg = sess.model_cfg()
+    ord1 = sess.cleanup_order(muts) or sess.cleanup_order(sess.muts)
+    base = ctx.driver.run([vlib.req("C07.poolRun", variant=VARIANT_FIXED, cfg=mcfg, ord=ord1, resume=False, fs=sess.fs0)])[0]
+    if "driver_error" in base:
+        ctx.disagree("pool_trace", inp, base, None)
+        return
+    s1, s2, nev, probs = derive_schedules(base["phases"], muts)
+    out = ctx.driver.run([vlib.req("C07.poolRun", variant=VARIANT_FIXED, cfg=mcfg, ord=ord1, resume=False, fs=sess.fs0, s1=s1, s2=s2)])[0]
     ctx.traces_validated += 1
-    if a != b or unknown:
-        keys = [k for k in set(a) | set(b) if a.get(k) != b.get(k)]
-        ctx.disagree("pool_trace", sess.cfg, "per-chromosome projections equal those of --threads 1", {"differs_for": keys[:5]})
+    m_muts, m_commits = model_muts(out["evs"])
+    real_seq = [[o, p] for _, o, p in muts]
+    model_seq = [[o, p] for _, o, p in m_muts]
+    if unknown:
+        probs.append("files without a path class: %s" % sorted(set(unknown))[:5])
+    if not out["ok"]:
+        probs.append("the model's pool run raises")
+    if real_seq != model_seq:
+        d = next((i for i, (a, b) in enumerate(zip(real_seq, model_seq)) if a != b), min(len(real_seq), len(model_seq)))
+        probs.append("the global trace is not the interleaving the model gives for its own schedule: position %d, real %s, model %s "
+                     "(lengths %d / %d)" % (d, real_seq[d:d + 2], model_seq[d:d + 2], len(real_seq), len(model_seq)))
+    elif nev != len(out["evs"]):
+        probs.append("the observed run covers %d of the model's %d events" % (nev, len(out["evs"])))
+    # an executor with `threads` workers has at most that many tasks in progress (Model/ResumePool.lean maxInProgress)
+    need = max([x.get("workers", 0) for x in out.get("phases", []) if x["kind"] == "pool"] or [0])
+    ctx.count("pool_workers_needed:%d_of_%d" % (need, threads))
+    if need > threads:
+        probs.append("the observed schedule has %d tasks in progress at once, the executor has %d workers" % (need, threads))
     else:
-        ctx.mark_nontrivial(["pool_trace", sess.cfg["seed"]])
+        probs += completion_check(muts, commits, m_muts, m_commits)[:5]
+    # how much the tasks really interleaved: number of task switches inside the parallel stages
+    sw = sum(1 for s in (s1, s2) for a, b in zip(s, s[1:]) if a != b)
+    ctx.count("pool_clean_trace:threads=%d" % threads)
+    ctx.count("pool_task_switches", sw)
+    if probs:
+        ctx.disagree("pool_trace", inp, probs[:6], None)
+        return
+    if sw > len(sess.data["chrs"]) - 1 + len(sess.data["chrs"]) - 1:
+        ctx.count("pool_clean_trace:really_interleaved")
+    ctx.mark_nontrivial(["pool_trace", sess.kind, sess.cfg["seed"], threads])
+    if len(ctx.samples) < 10:
+        ctx.sample({"op": "pool_trace", "input": inp, "mutations": len(real_seq), "task_switches": sw,
+                    "schedule_collect": s1[:24], "schedule_construct": s2[:24]})
+
+
+def pool_kill_check(ctx, sess, pts, res):
+    """kill points of pool runs against the model's pool run under the observed schedules"""
+    mcfg = sess.model_cfg()
+    ord1 = sess.cleanup_order(sess.muts)
+    base = ctx.driver.run([vlib.req("C07.poolRun", variant=VARIANT_FIXED, cfg=mcfg, ord=ord1, resume=False, fs=sess.fs0)])[0]
+    if "driver_error" in base:
+        ctx.disagree("pool_trace", {"config": sess.cfg, "history": sess.history}, base, None)
+        return
+    fs0_keys = {json.dumps(p) for p, _ in sess.fs0}
+    prep, lines = [], []
+    for (k, ph, th), r in zip(pts, res):
+        if r["verdict"] == "NOCRASH":
+            ctx.count("pool_point_not_reached")
+            continue
+        cm, _, _ = canon_trace(r["trace"], sess.table)
+        cm.sort(key=lambda x: x[0])
+        snap_keys = {json.dumps(sess.table[f]) for f in r["snapshot"] if f in sess.table}
+        killer = next(([o, p] for n, o, p in cm if n == k), None)
+        perf = performed_mutations(cm, snap_keys, fs0_keys, k, ph)
+        ordc = sess.cleanup_order(perf)
+        ordk = ordc + [p for p in ord1 if p not in ordc] if ordc else ord1
+        s1, s2, kidx, probs = derive_schedules(base["phases"], perf, killed=True, pending=killer if ph == "b" else None)
+        rm = canon_trace(r.get("resume_trace", []), sess.table)[0]
+        rm.sort(key=lambda x: x[0])
+        common = dict(variant=VARIANT_FIXED, cfg=mcfg, ord=ordk, ord2=sess.cleanup_order(rm), k=kidx, fs0=sess.fs0, s1=s1, s2=s2)
+        lines.append(vlib.req("C07.poolVerdict", **common))
+        lines.append(vlib.req("C07.poolCrash", variant=VARIANT_FIXED, cfg=mcfg, ord=ordk, k=kidx, fs0=sess.fs0, s1=s1, s2=s2))
+        prep.append(((k, ph, th), r, rm, common, probs, snap_keys, killer is None))
+    outs = ctx.driver.run(lines)
+    # second round: the schedules of the resumed run, read off its trace against the phases of the model's resumed run
+    lines2 = []
+    for i, (pt, r, rm, common, probs, snap_keys, nokiller) in enumerate(prep):
+        mo = outs[2 * i]
+        if isinstance(mo, dict) and "driver_error" in mo:
+            lines2.append(vlib.req("C07.poolVerdict", **common))
+            continue
+        r1, r2, nev2, probs2 = derive_schedules(mo["resumed"]["phases"], rm, killed=r["verdict"] == "FAIL")
+        if r["verdict"] != "FAIL":
+            probs += ["resumed run: " + x for x in probs2]
+        lines2.append(vlib.req("C07.poolVerdict", r1=r1, r2=r2, **common))
+    outs2 = ctx.driver.run(lines2)
+    for i, ((k, ph, th), r, rm, common, probs, snap_keys, nokiller) in enumerate(prep):
+        mo, mfs = outs2[i], outs[2 * i + 1]
+        ctx.evaluations += 1
+        ctx.traces_validated += 1
+        inp = {"config": sess.cfg, "history": sess.history, "k": k, "phase": ph, "threads": th, "model_index": common["k"],
+               "s1": common["s1"], "s2": common["s2"]}
+        if isinstance(mo, dict) and "driver_error" in mo:
+            ctx.disagree("pool_verdict", inp, mo, None)
+            continue
+        ctx.count("pool_verdict:" + r["verdict"])
+        ctx.count("pool_kill_points:%s:threads=%d" % (sess.kind, th))
+        bad = list(probs)
+        if nokiller:
+            bad.append("the trace of the killed run has no line for mutation %d" % k)
+        model_files = {json.dumps(p) for p, _ in mfs}
+        if snap_keys != model_files:
+            bad.append("files at the kill differ: only real %s, only model %s" %
+                       (sorted(snap_keys - model_files)[:4], sorted(model_files - snap_keys)[:4]))
+        if mo["verdict"] != r["verdict"]:
+            bad.append("verdict: model %s, real %s (%s)" % (mo["verdict"], r["verdict"], r["detail"][:300]))
+        mr = [[o, p] for _, o, p in model_muts(mo["resumed"]["evs"])[0]]
+        rr = [[o, p] for _, o, p in rm]
+        if mr != rr and r["verdict"] != "FAIL":
+            d = next((x for x, (a, b) in enumerate(zip(rr, mr)) if a != b), min(len(rr), len(mr)))
+            bad.append("resumed traces differ at %d: real %s, model %s" % (d, rr[d:d + 2], mr[d:d + 2]))
+        # a kill point of interest: at least two tasks partially executed (no --threads 1 run passes through such a state)
+        pools = [x for x in base["phases"] if x["kind"] == "pool"]
+        for sc, ph_ in zip((common["s1"], common["s2"]), pools):
+            partial = sum(1 for t in ph_["tasks"] if 0 < sc.count(t[0]) < len(t[1]))
+            if partial >= 2:
+                ctx.count("pool_kill_points:two_or_more_tasks_in_progress")
+        if bad:
+            ctx.disagree("pool_crash_point", inp, bad[:6], r["verdict"])
+        else:
+            ctx.mark_nontrivial(["pool", sess.kind, sess.cfg["seed"], k, ph, th])
+            if ctx.rng.random() < 0.15:
+                ctx.sample({"op": "pool_crash_point", "input": {x: inp[x] for x in ("k", "phase", "threads", "model_index")},
+                            "verdict": r["verdict"], "resumed_mutations": len(rr)}, cap=16)
+
+
+def pool_checks(ctx):
+    import time
+    t0 = time.time()
+    try:
+        _pool_checks(ctx)
+    finally:
+        ctx.count("wall_s:pool_checks", int(time.time() - t0))
+
+
+def _pool_checks(ctx):
+    plain, hist = pool_sessions(ctx)
+    if not plain and not hist:
+        return
+    for sess in plain:
+        for th in ([2, 3, 4] if ctx.tier != "quick" or sess is plain[0] else [2]):
+            pool_clean_check(ctx, sess, th)
+    for sess in hist:
+        pool_clean_check(ctx, sess, ctx.rng.choice([2, 3, 4]))
+    for sess in plain + hist:
+        pts = pool_points(ctx, sess)
+        res = run_pool_points(ctx, sess, pts)
+        pool_kill_check(ctx, sess, pts, res)
 
 
 # ------------------------------------------------------------------------------------------------
@@ -641,21 +1132,24 @@ def oracle(ctx, disagreements, broken):
             for (k, ph), r in zip(pts, res):
                 judge(ctx, sess, k, ph, r)
             ctx.count("oracle_points", len(pts))
-        # sampled kill points under a process pool (mutation numbering is schedule dependent: judged by the property only)
-        multi = [s for s in sessions(ctx) if s.kind == "plain" and s.clean_rc == 0 and len(s.data["chrs"]) >= 2]
-        if multi:
-            sess = multi[0]
-            last = sess.muts[-1][0]
-            ks = ctx.rng.sample(range(sess.first_point(), last + 1), min(6 if ctx.tier == "quick" else 40, last - sess.first_point()))
-            st = _state(ctx)
-            with ThreadPoolExecutor(st["workers"]) as ex:
-                rs = list(ex.map(lambda k: sess.run_point(k, "a", threads=2), ks))
-            for k, r in zip(ks, rs):
+        # sampled kill points of pool runs (--threads 2..4; cached when the correspondence ran them), judged by the property
+        plain, hist = pool_sessions(ctx)
+        for sess in plain + hist:
+            pts = pool_points(ctx, sess)
+            if ctx.tier == "quick" and broken:
+                # something no longer checks: more pool kill points, around every lock of the parallel stages
+                extra = [(n, phs, th) for n, o, p in sess.muts if p[0] in ("collected", "processed") and o == "create"
+                         for phs in "ab" for th in (2, 3)]
+                pts = pts + [x for x in extra if x not in pts]
+            res = run_pool_points(ctx, sess, pts)
+            for (k, ph, th), r in zip(pts, res):
                 if r["verdict"] not in ("EQUAL", "NOCRASH"):
-                    ctx.fail(("resume_silently_wrong:" if r["verdict"] == "DIFF" else "resume_fails:") + "pool",
-                             {"config": sess.cfg, "history": None, "k": k, "phase": "a", "threads": 2},
-                             "%s %s" % (r["verdict"], r["detail"][:400]))
-            ctx.count("oracle_pool_points", len(ks))
+                    ctx.fail(("resume_silently_wrong:" if r["verdict"] == "DIFF" else "resume_fails:") + "pool" +
+                             ("" if sess.kind == "plain" else ":" + sess.kind),
+                             {"config": sess.cfg, "history": sess.history, "k": k, "phase": ph, "threads": th},
+                             "--threads %d, kill %s mutation %d; --resume: %s %s" %
+                             (th, "after" if ph == "a" else "before", k, r["verdict"], r["detail"][:400]))
+            ctx.count("oracle_pool_points", len(pts))
     finally:
         st = getattr(ctx, "_c07", None)
         if st:
@@ -674,6 +1168,10 @@ def replay(ctx, failure):
             sess = DirtySession(base, 0, cfg, data, h["k1"], h["ph1"])
         elif h and h["kind"] == "saves":
             sess = SavesSession(base, 0, cfg, data, h["kA"])
+        elif cfg.get("multi"):
+            sess = MultiSession(base, 0, cfg, data)
+        elif cfg.get("sqanti"):
+            sess = SqantiSession(base, 0, cfg, data)
         else:
             sess = Session(base, 0, cfg, data)
         if sess.clean_rc != 0:
@@ -684,7 +1182,7 @@ def replay(ctx, failure):
             return False
         wd = os.path.join(base, "replay")
         r = R.crash_resume(wd, cfg, sess.data, inp["k"], inp["phase"], sess.clean_outputs, threads=inp.get("threads", 1),
-                           prepare=sess.prepare, args=sess.args, prefix=sess.prefix)
+                           prepare=sess.prepare, args=lambda w: sess.args(w, inp.get("threads", 1)), prefix=sess.prefix)
         print("  kill %s mutation %d, --resume: %s %s" % (inp["phase"], inp["k"], r["verdict"], r["detail"][:300]))
         return r["verdict"] not in ("EQUAL", "NOCRASH")
     finally:
